@@ -135,11 +135,40 @@ class Class:
         self.class_consts: Dict[str, ast.AST] = {}
 
 
+class FuncTable(dict):
+    """qualified name -> Func. In the helper-inlined view, private helpers whose every call site was inlined are dead code:
+    they stay addressable by name (rules anchored on them still find them) but are skipped when the table is iterated, so that
+    rules scanning 'all functions' do not see their statements twice."""
+
+    def __init__(self):
+        super().__init__()
+        self.hidden = set()
+
+    def __iter__(self):
+        return (k for k in super().__iter__() if k not in self.hidden)
+
+    def keys(self):
+        return [k for k in super().keys() if k not in self.hidden]
+
+    def items(self):
+        return [(k, v) for k, v in super().items() if k not in self.hidden]
+
+    def values(self):
+        return [v for k, v in super().items() if k not in self.hidden]
+
+    def __len__(self):
+        return super().__len__() - len(self.hidden)
+
+
 class Program:
-    def __init__(self, repo="/repo"):
+    def __init__(self, repo="/repo", inline_from=None):
+        """inline_from: a plain Program of the same tree; when given, private same-module helpers are inlined into their
+        callers before indexing (sa/inline.py) - an equivalent second view of the same program"""
         self.repo = os.path.abspath(repo)
+        self.inline_from = inline_from
+        self.inline_stats = None
         self.modules: Dict[str, Module] = {}
-        self.funcs: Dict[str, Func] = {}
+        self.funcs: Dict[str, Func] = FuncTable()
         self.classes: Dict[str, Class] = {}
         self.func_of_node: Dict[int, Func] = {}
         self._env_cache: Dict[str, dict] = {}
@@ -150,6 +179,10 @@ class Program:
         self._load()
         self._index()
         self._infer()
+        if self.inline_from is not None:
+            self.funcs.hidden = {q for q, f in dict.items(self.funcs) if getattr(f.node, "_dead_helper", False)}
+            for t in list(self.callers):
+                self.callers[t] = [(c, call) for c, call in self.callers[t] if c not in self.funcs.hidden]
 
     # ------------------------------------------------------------------ loading
     def _load(self):
@@ -182,6 +215,11 @@ class Program:
             digest.update(src.encode())
         else:
             self.setup = None
+        if self.inline_from is not None:
+            from .inline import inline_modules
+
+            self.inline_stats = inline_modules(self.inline_from, self.modules)
+            digest.update(b"inlined-view")
         self.digest = digest.hexdigest()
         if len(self.modules) < 20:
             raise AnalysisError(f"only {len(self.modules)} modules parsed under {pkg_dir}; expected >= 20")
